@@ -366,7 +366,7 @@ class WSStream:
         # This raises for an invalid subprotocol or header, in which case
         # the handshake is still to be answered.
         status_code, headers, self.connection = self.handshake.accept(
-            message.get("subprotocol"), message.get("headers", [])
+            message.get("subprotocol"), build_and_validate_headers(message.get("headers", []))
         )
         self.state = ASGIWebsocketState.CONNECTED
         await self.send(
